@@ -1,6 +1,7 @@
 import KinModel.Drv.SchemaJson
 import KinModel.Schema.Spec
 import KinModel.Schema.Events
+import KinModel.Schema.Defaults
 open Lean
 namespace KinModel.Drv.C01
 open KinModel.Drv KinModel.Schema
@@ -40,19 +41,34 @@ def handle (j : Json) : Json :=
   let s := caseSchema j
   let v := toJ (getD j "value" Json.null)
   let env := envOf j
-  let m := visit env s v
+  -- with default injection (DefaultsSet under a request / response reading) the validator writes into the value while it
+  -- validates: the model of that setting is `visitD` (Schema/Defaults.lean), the verdict that of its event tree
+  let inj := env.injects
+  let verdictIn (e : Env) (mo : Mode) : Bool := if e.injects then (validateD mo e s v).1.isOk else visit e s v
+  let m := verdictIn env .dflt
   -- the fail-fast entry points (VisitJSON(FailFast()), IsMatching*): `(validate .failfast env s v).isOk`, which IS `visit env s v`
   -- by the kernel-checked `verdict_same_in_all_modes` (Props/C12.lean); the driver does not compute the event tree twice
-  let ff := m
+  let ff := if inj then verdictIn env .failfast else m
   let envS := envSpecOf j
-  let sp := satB envS s v
+  -- the property under injection: a default below a `not` must not influence anything outside that `not`, so a schema whose
+  -- defaults all live below `not`s (`!hasOwnDflt`) whose own verdict a written default cannot change (`notsNeutral`) is judged
+  -- as in plain validation: Sat of the value handed in. Other schemas have no verdict-level spec of their own here
+  -- (spec := model; C12 states what the value is afterwards).
+  let ownD := inj && (s.hasOwnDflt || !s.notsNeutral)
+  let sp := if ownD then m else satB envS s v
   let differs := hasGorx j && !env.patOff && s.pats.any patternTranslationDiffers
-  let pre := (getArr j "pre").map (fun st => let e := { env with regex := regexOf st }; (visit e s v, satB e s v))
+  let pre := (getArr j "pre").map (fun st => let e := { env with regex := regexOf st }
+                                              let mv := verdictIn e .dflt
+                                              (mv, if ownD then mv else satB e s v))
   let br := (kwBranches sj 0).eraseDups ++ [valKind v] ++ (if m then ["accept"] else ["reject"]) ++
     (if s.shortcut then ["shortcut"] else []) ++
     (if env.asreq then ["ctx.asreq"] else []) ++ (if env.asrep then ["ctx.asrep"] else []) ++
     (if env.roOff || env.woOff then ["ctx.switchoff"] else []) ++
     (if env.patOff then ["opt.patOff"] else []) ++
+    (if env.dfl then ["opt.defaultsSet"] else []) ++
+    (if inj && s.dfltUnderNot then ["dflt.under.not"] else []) ++
+    (if inj && s.dfltUnderNot && !ownD then ["dflt.only.under.not.neutral"] else []) ++
+    (if ownD then ["dflt.own.spec-is-model"] else []) ++
     (if pre.isEmpty then [] else ["history.compiler"]) ++
     (if s.pats.any (fun p => intoGo p != p) then ["pattern.translated"] else []) ++
     (if differs then ["pattern.translation.differs"] else []) ++
